@@ -30,6 +30,53 @@ def recursion_on_depth(f: Func) -> str | None:
     return None
 
 
+def late_bound_deferred(f: Func) -> str | None:
+    """A lazy group (generator expression / lambda) that is put on a container inside a loop and whose delayed part reads a
+    variable the loop rebinds: by the time the group is consumed (a later iteration: the take precedes the put in the loop body)
+    the variable names another element.  Only the first iterable of a generator expression is evaluated when it is created."""
+    fn = f.node
+    for lp in ast.walk(fn):
+        if not isinstance(lp, (ast.While, ast.For)):
+            continue
+        rebound: set[str] = set()
+        for n in walk_body(lp.body):
+            if isinstance(n, ast.Name) and isinstance(n.ctx, ast.Store):
+                rebound.add(n.id)
+        if isinstance(lp, ast.For):
+            rebound |= {n.id for n in ast.walk(lp.target) if isinstance(n, ast.Name)}
+        taken: set[str] = set()
+        hdr = lp.test if isinstance(lp, ast.While) else lp.iter
+        for n in [hdr, *walk_body(lp.body)]:
+            for c in ast.walk(n) if n is hdr else [n]:
+                if isinstance(c, ast.Call) and isinstance(c.func, ast.Attribute) and c.func.attr in ("pop", "popleft") and dotted(c.func.value):
+                    taken.add(dotted(c.func.value))
+        for n in walk_body(lp.body):
+            if not (isinstance(n, ast.Call) and isinstance(n.func, ast.Attribute) and n.func.attr in ("append", "appendleft", "insert", "add", "put")):
+                continue
+            cont = dotted(n.func.value)
+            if cont is None or cont not in taken or not n.args:
+                continue
+            arg = n.args[-1]
+            if isinstance(arg, ast.GeneratorExp):
+                own = {x.id for g in arg.generators for x in ast.walk(g.target) if isinstance(x, ast.Name)}
+                delayed: list[ast.AST] = [arg.elt]
+                for i, g in enumerate(arg.generators):
+                    delayed += g.ifs
+                    if i:
+                        delayed.append(g.iter)
+            elif isinstance(arg, ast.Lambda):
+                own = {a.arg for a in arg.args.args + arg.args.kwonlyargs}
+                delayed = [arg.body]
+            else:
+                continue
+            used = {x.id for d in delayed for x in ast.walk(d) if isinstance(x, ast.Name) and isinstance(x.ctx, ast.Load)} - own
+            hit = sorted(used & rebound)
+            if hit:
+                return (f"a lazily evaluated group put on {cont} at line {n.lineno} reads {', '.join(hit)} when it is consumed, "
+                        f"after the loop has rebound {'it' if len(hit) == 1 else 'them'} (late binding): its records name the wrong node")
+    return None
+
+
 def check_worklist(ck: Checker, f: Func, mode: dict[str, Any], expected: str, *, legacy: bool = False, rule: str = "R-WORKLIST") -> Model:
     m = build_model(f, mode)
     order, facts = derived_order(m)
@@ -358,6 +405,11 @@ def run(ck: Checker) -> None:
                 ck.violation("R-WORKLIST", trav, trav.node, what, construct=f"{trav.qualname}: {rec} (a deep tree raises RecursionError instead of being traversed)")
                 return
             ck.holds("R-WORKLIST", trav, trav.node, what)
+            late = late_bound_deferred(trav)
+            if late:
+                ck.violation("R-WORKLIST", trav, trav.node, f"{trav.qualname}: no deferred group reads a loop variable after it is rebound",
+                             construct=f"{trav.qualname}: {late}")
+                return
         for mode, exp in (({"bottom_up": False}, "pre-order"), ({"bottom_up": True}, "post-order")):
             m = check_worklist(ck, dfs, mode, exp)
             ck.guard("R-CTRLDEP", lambda m=m: check_ctrldep(ck, dfs, m), dfs)
